@@ -209,6 +209,33 @@ func (lr *LoopRun) grace(timeout time.Duration) time.Duration {
 // solve runs one query built from terms (adds side conditions).
 func (lr *LoopRun) solve(name string, asserts []*smt.Term, values []*smt.Term, timeout time.Duration) smt.Result {
 	full := smt.And(asserts...)
+	// propagate top-level equalities variable = constant through the formula
+	// (folds string operations on fixed token data before the solver sees them)
+	for round := 0; round < 3 && full.Op == "and"; round++ {
+		sub := map[*smt.Term]*smt.Term{}
+		for _, cj := range full.Args {
+			if cj.Op == "=" {
+				a, b := cj.Args[0], cj.Args[1]
+				if a.Op == "var" && b.IsConst() {
+					sub[a] = b
+				} else if b.Op == "var" && a.IsConst() {
+					sub[b] = a
+				}
+			}
+		}
+		if len(sub) == 0 {
+			break
+		}
+		var eqs []*smt.Term
+		for v, c := range sub {
+			eqs = append(eqs, smt.App("=", smt.Bool, v, c))
+		}
+		n := smt.And(append(eqs, smt.Subst(full, sub))...)
+		if n == full {
+			break
+		}
+		full = n
+	}
 	if full.IsFalse() {
 		return smt.Result{Status: smt.Unsat, Solver: "syntactic"}
 	}
@@ -409,7 +436,9 @@ func (w *seqWitness) html() (string, bool) {
 			if t.Data == "" {
 				return "", false
 			}
-			sb.WriteString(html.EscapeString(t.Data))
+			// a carriage return must be written as a character reference: a raw CR
+			// is turned into LF by the tokenizer
+			sb.WriteString(strings.ReplaceAll(html.EscapeString(t.Data), "\r", "&#13;"))
 		case 2:
 			sb.WriteString("<" + t.Data + attr + ">")
 		case 3:
